@@ -59,7 +59,7 @@ Qed.
 
 (* a stale marker for an absent key is dropped: the key stays absent *)
 Definition stale (c : iter_cfg) (e : kv) : bool :=
-  is_deleted (masked_flags e) && (k_ts e <? c_cutoff c).
+  new_deleted c e && (k_ts e <? c_cutoff c).
 
 Fixpoint drop_stale (c : iter_cfg) (l : list kv) : list kv :=
   match l with
